@@ -28,6 +28,12 @@ def load():
 
 
 def classify(prop, case, failure, kf):
+    if prop == "C12" and isinstance(case.get("inner"), dict) and case.get("driver_prop") and failure.get("kind") in ("process_crash", "hang"):
+        # C12 re-executes the case bodies of other drivers under the sanitised build: a worker death there is the same event as the
+        # death the driver's own check already keys (by mechanism); sanitizer reports have their own predicates below
+        key = classify(case["driver_prop"], case["inner"], failure, kf)
+        if key:
+            return key
     for ent in kf.get("findings", []):
         if ent.get("status") != "open":
             continue
